@@ -10,10 +10,10 @@ using namespace c01;
 int main(int argc, char** argv)
 {
   FEAT::Runtime::ScopeGuard guard(argc, argv);
-  verif::Spec spec; spec.property = "C01"; spec.harness = "c01_apply_bandu";
+  verif::Spec spec; spec.property = "C01"; spec.harness = "c01_apply_bandu"; spec.case_timeout_s = 120;
   spec.rule = "case = (type pair, shape, one of ALL subsets of the m+n-1 diagonals whose size selects an unrolled kernel (3,5,9,25), padding content, "
-    "operation {r:=Ax, r:=y+aAx r!=y, r==y}, alpha, alphabet); non-trivial = |alpha|>=eps; hash over all of these";
-  spec.bounds_quick = "FEAT_UNROLL_BANDED defined; shapes {1..4}^2 with 3 or 5 offsets, 5x5,5x6,6x5,6x6 with 9 offsets; (double,u64),(float,u32); all 7 alphas; exact + rounding alphabet";
+    "variant (4 alphabets on a fresh object / scenarios: other calls first, sub-range views, clones, moved, index-type round trip), operation {r:=Ax, r:=y+aAx r!=y, r==y}, alpha); every operation repeated on the filled objects; non-trivial = |alpha|>=eps; hash over all of these";
+  spec.bounds_quick = "FEAT_UNROLL_BANDED defined; shapes {1..4}^2 with 3 or 5 offsets, 5x5,5x6,6x5,6x6 with 9 offsets; (double,u64),(float,u32); 9 scalars; up to 12 variants per pattern";
   spec.bounds_thorough = "quick + shapes {1..6}^2 with 3,5,9 offsets (double,u32 too) + 13x13, 13x14, 14x13 with 25 offsets (full / full minus one diagonal)";
   spec.assumptions = {
     "configuration switch FEAT_UNROLL_BANDED is set by the harness TU (header-only kernel), nothing in /repo is changed",
